@@ -220,7 +220,11 @@ def equal(case, a, b):
                 return False
             continue
         if q[0] == "pos" and b.get("spec") and iv[0] == "exc":
-            return False
+            # positions of a term of the corpus must not raise; for an absent term (possible after shrinking) the
+            # implementation raises TermMissingError and the spec has no opinion
+            if any(q[1] in (d or []) for d in case["docs"]):
+                return False
+            continue
         if iv != ov:
             # positions of an absent term: implementation raises TermMissingError; spec has no opinion
             if q[0] == "pos" and b.get("spec"):
